@@ -281,9 +281,19 @@ def generate(rng, tier):
             yield again
     for _ in range(600 if thorough else 200):
         yield dec_case(rng)
+    # what the Sender puts on the wire for messages it segments itself (SAR parameters or a concatenation header it builds,
+    # references around the 8-bit wrap): an independent receiver must read the text the application supplied
+    from corr import c08
+    for udh in (True, False):
+        for gsm in (True, False):
+            for want in ((255, 0, 254) if udh else (255,)):
+                for _ in range(3 if thorough else 1):
+                    yield c08.session_segments_case(rng, (udh, gsm, rng.choice(('none', 'udh-ucs2', 'sar-gsm')), want))
 
 
 def replay(inp):
+    if inp['op'] == 'session-seg':
+        return Case('# ' + str(inp)[:200], '', None, None, inp)
     if inp['op'] == 'dec':
         from corr.c03 import dec_case as d3
         return d3(bytes.fromhex(inp['hex']), inp['default'], 'replay')
